@@ -143,14 +143,15 @@ func (x *c02srcTr) fieldsOf(typeName string, out *[]c02srcField) {
 }
 
 type c02srcM struct {
-	x       *c02srcTr
-	st      string // Lean state type
-	recv    types.Object
-	locals  map[types.Object]string
-	fields  map[string]string
-	usesNow bool
-	unit    bool
-	pureFns map[string]bool // methods of the receiver translated as pure Bool functions
+	x          *c02srcTr
+	st         string // Lean state type
+	recv       types.Object
+	locals     map[types.Object]string
+	fields     map[string]string
+	usesNow    bool
+	unit       bool
+	pureFns    map[string]bool // methods of the receiver translated as pure Bool functions
+	boolLocals map[types.Object]bool
 }
 
 func (m *c02srcM) isRecv(e ast.Expr) bool {
@@ -236,6 +237,10 @@ func (m *c02srcM) cond(e ast.Expr) string {
 	switch v := e.(type) {
 	case *ast.ParenExpr:
 		return m.cond(v.X)
+	case *ast.Ident:
+		if o := info.Uses[v]; o != nil && m.boolLocals[o] {
+			return "(" + m.locals[o] + " = true)"
+		}
 	case *ast.UnaryExpr:
 		if v.Op == token.NOT {
 			return "(¬ " + m.cond(v.X) + ")"
@@ -333,6 +338,18 @@ func (m *c02srcM) stmts(list []ast.Stmt, ind string, done func(ind string) strin
 		if l, ok := v.Lhs[0].(*ast.Ident); ok && v.Tok == token.DEFINE {
 			o := info.Defs[l]
 			ty := info.TypeOf(l)
+			if o != nil && isBool(ty) {
+				// a flag: `started := s.IsStarted()`
+				c := m.cond(v.Rhs[0])
+				x.tmp++
+				name := fmt.Sprintf("%s_%d", mangle(l.Name), x.tmp)
+				m.locals[o] = name
+				if m.boolLocals == nil {
+					m.boolLocals = map[types.Object]bool{}
+				}
+				m.boolLocals[o] = true
+				return ind + "let " + name + " : Bool := decide " + c + "\n" + m.stmts(rest, ind, done)
+			}
 			if o == nil || !(isInt(ty) || c02srcIsTime(ty)) {
 				return ind + x.fail(s0, "local %s of type %s", l.Name, ty)
 			}
@@ -619,6 +636,39 @@ type c02srcPure struct {
 	// for decisions
 	recv      types.Object
 	retryName string // method name whose self-call means "shift and retry"
+	// w: machine-integer mode. Every +, -, * and unary minus is followed by `wrapInt <bits of its Go type>`, every
+	// conversion to an integer type is `wrapInt <bits of the target type>` (two's complement, as Go defines it).
+	w bool
+}
+
+// c02srcBits: width of a signed Go integer type on the target the repo is built for (gc/amd64); 0 = not a signed integer.
+func c02srcBits(t types.Type) int {
+	b, ok := t.Underlying().(*types.Basic)
+	if !ok {
+		return 0
+	}
+	switch b.Kind() {
+	case types.Int8:
+		return 8
+	case types.Int16:
+		return 16
+	case types.Int32:
+		return 32
+	case types.Int64, types.Int, types.UntypedInt:
+		return 64
+	}
+	return 0
+}
+
+func (q *c02srcPure) wrap(e ast.Expr, inner string) string {
+	if !q.w {
+		return inner
+	}
+	b := c02srcBits(q.x.p.TypesInfo.TypeOf(e))
+	if b == 0 {
+		return q.x.fail(e, "machine-integer mode: %s is not a signed integer", q.x.src(e))
+	}
+	return fmt.Sprintf("(wrapInt %d %s)", b, inner)
 }
 
 func (q *c02srcPure) name(e ast.Expr) (string, bool) {
@@ -649,16 +699,16 @@ func (q *c02srcPure) val(e ast.Expr) string {
 		return x.fail(e, "identifier %s", v.Name)
 	case *ast.UnaryExpr:
 		if v.Op == token.SUB {
-			return "(-" + q.val(v.X) + ")"
+			return q.wrap(v, "(-"+q.val(v.X)+")")
 		}
 	case *ast.BinaryExpr:
 		op := map[token.Token]string{token.ADD: "+", token.SUB: "-", token.MUL: "*"}[v.Op]
 		if op != "" {
-			return "(" + q.val(v.X) + " " + op + " " + q.val(v.Y) + ")"
+			return q.wrap(v, "("+q.val(v.X)+" "+op+" "+q.val(v.Y)+")")
 		}
 	case *ast.CallExpr:
 		if tv, ok := x.p.TypesInfo.Types[v.Fun]; ok && tv.IsType() && len(v.Args) == 1 && isInt(tv.Type) {
-			return q.val(v.Args[0])
+			return q.wrap(v, q.val(v.Args[0]))
 		}
 	}
 	return x.fail(e, "value %s", x.src(e))
@@ -733,7 +783,7 @@ func (q *c02srcPure) assigns(list []ast.Stmt, ind string) (string, []string, boo
 		switch as.Tok {
 		case token.ASSIGN:
 		case token.ADD_ASSIGN:
-			rhs = "(" + n + " + " + rhs + ")"
+			rhs = q.wrap(as.Lhs[0], "("+n+" + "+rhs+")")
 		default:
 			return "", nil, false
 		}
@@ -746,7 +796,7 @@ func (q *c02srcPure) assigns(list []ast.Stmt, ind string) (string, []string, boo
 	return b.String(), vars, true
 }
 
-func (x *c02srcTr) newCompositeLoop() string {
+func (x *c02srcTr) newCompositeLoop(w bool) string {
 	fd := findFunc(x.p, "NewComposite")
 	if fd == nil {
 		x.failf("func NewComposite not found")
@@ -757,7 +807,8 @@ func (x *c02srcTr) newCompositeLoop() string {
 	// shortcuts: switch len(scheds) { case 0: return NewOnce(0); case 1: return scheds[0] }
 	var shortcuts []string
 	var loop *ast.ForStmt
-	q := &c02srcPure{x: x, names: map[types.Object]string{}, isB: map[string]bool{}}
+	q := &c02srcPure{x: x, names: map[types.Object]string{}, isB: map[string]bool{}, w: w}
+	elemBits := 0
 	var accName, unkName string
 	for _, st := range fd.Body.List {
 		switch v := st.(type) {
@@ -817,8 +868,10 @@ func (x *c02srcTr) newCompositeLoop() string {
 			dir = "firstToLast"
 		}
 	}
-	fmt.Fprintf(&b, "/-- regenerated from `core/schedule/composite.go` func `NewComposite`: `switch len(scheds)` -/\ndef NewComposite_shortcuts : List (Int × String) := [%s]\n\n", strings.Join(shortcuts, ", "))
-	fmt.Fprintf(&b, "/-- … the order in which its loop visits the children -/\ndef NewComposite_loopOrder : String := %s\n\n", strconv.Quote(dir))
+	if !w {
+		fmt.Fprintf(&b, "/-- regenerated from `core/schedule/composite.go` func `NewComposite`: `switch len(scheds)` -/\ndef NewComposite_shortcuts : List (Int × String) := [%s]\n\n", strings.Join(shortcuts, ", "))
+		fmt.Fprintf(&b, "/-- … the order in which its loop visits the children -/\ndef NewComposite_loopOrder : String := %s\n\n", strconv.Quote(dir))
+	}
 	// body
 	var body strings.Builder
 	leftI := ""
@@ -828,8 +881,11 @@ func (x *c02srcTr) newCompositeLoop() string {
 			if len(v.Lhs) == 1 && len(v.Rhs) == 1 {
 				// left[i] = <expr>
 				if ix, ok := v.Lhs[0].(*ast.IndexExpr); ok && v.Tok == token.ASSIGN {
-					_ = ix
+					elemBits = c02srcBits(info.TypeOf(ix))
 					leftI = q.val(v.Rhs[0])
+					if w { // the store into the element
+						leftI = fmt.Sprintf("wrapInt %d %s", elemBits, leftI)
+					}
 					body.WriteString("  let left_i : Int := " + leftI + "\n")
 					continue
 				}
@@ -891,22 +947,29 @@ func (x *c02srcTr) newCompositeLoop() string {
 	if leftI == "" {
 		x.failf("NewComposite: `left[i] = …` not found in the loop")
 	}
-	b.WriteString("/-- … and the body of that loop: (leftAccumulator, unknown) before the child, the child's `Left()` ↦\n(left[i], leftAccumulator, unknown) -/\n")
-	b.WriteString("def NewComposite_loopBody (leftAccumulator : Int) (unknown : Bool) (childLeft : Int) : Int × Int × Bool :=\n")
+	if w {
+		fmt.Fprintf(&b, "/-- width (bits, signed) of the elements of the slice `NewComposite` stores the suffix sums in -/\ndef NewComposite_leftElemBits : Nat := %d\n\n", elemBits)
+		b.WriteString("/-- the body of the loop of `NewComposite` once more, in MACHINE integers: every +, -, * is followed by\n`wrapInt <bits of its Go type>`, every integer conversion is `wrapInt <bits of the target type>` -/\n")
+		b.WriteString("def NewComposite_loopBodyW (leftAccumulator : Int) (unknown : Bool) (childLeft : Int) : Int × Int × Bool :=\n")
+	} else {
+		b.WriteString("/-- … and the body of that loop: (leftAccumulator, unknown) before the child, the child's `Left()` ↦\n(left[i], leftAccumulator, unknown) -/\n")
+		b.WriteString("def NewComposite_loopBody (leftAccumulator : Int) (unknown : Bool) (childLeft : Int) : Int × Int × Bool :=\n")
+	}
 	b.WriteString(body.String())
 	b.WriteString("  (left_i, leftAccumulator, unknown)\n\n")
 	return b.String()
 }
 
 // leftDecision: compositeSchedule.Left after its reader section.
-func (x *c02srcTr) leftDecision() string {
+func (x *c02srcTr) leftDecision(w bool) string {
 	fd := x.findMethod("compositeSchedule", "Left")
 	if fd == nil {
 		x.failf("method compositeSchedule.Left not found")
 		return ""
 	}
 	info := x.p.TypesInfo
-	q := &c02srcPure{x: x, names: map[types.Object]string{}, isB: map[string]bool{"started": true}, retryName: "Left"}
+	q := &c02srcPure{x: x, names: map[types.Object]string{}, isB: map[string]bool{"started": true}, retryName: "Left", w: w}
+	fieldBits, convBits := 0, 0
 	if len(fd.Recv.List[0].Names) == 1 {
 		q.recv = info.Defs[fd.Recv.List[0].Names[0]]
 	}
@@ -942,6 +1005,13 @@ func (x *c02srcTr) leftDecision() string {
 			q.names[info.Defs[id]] = "schedsLeft"
 		case r == recvName+".leftAfter[0]":
 			q.names[info.Defs[id]] = "leftAfter"
+			convBits = c02srcBits(info.TypeOf(as.Rhs[0]))
+			ast.Inspect(as.Rhs[0], func(n ast.Node) bool {
+				if ix, ok := n.(*ast.IndexExpr); ok {
+					fieldBits = c02srcBits(info.TypeOf(ix))
+				}
+				return true
+			})
 		case rhs == recvName+".scheds[0].Left()":
 			q.names[info.Defs[id]] = "left"
 		default:
@@ -985,7 +1055,15 @@ func (x *c02srcTr) leftDecision() string {
 	}
 	var b strings.Builder
 	b.WriteString("/-- regenerated from `core/schedule/composite.go` method `(*compositeSchedule).Left`: what it decides after the reader\nsection, from what it read there (`len(s.scheds)`, `s.leftAfter[0]`, `s.scheds[0].Left()`) and the `started` flag;\n`.shift` = the writer section followed by `return s.Left()` -/\n")
-	b.WriteString("def compositeSchedule_Left_decide (schedsLeft leftAfter left : Int) (started : Bool) : C02LeftAct :=\n")
+	if w {
+		b.Reset()
+		fmt.Fprintf(&b, "/-- width (bits, signed) of the elements of the field `compositeSchedule.leftAfter` -/\ndef compositeSchedule_leftAfter_elemBits : Nat := %d\n\n", fieldBits)
+		b.WriteString("/-- `compositeSchedule.Left` after its reader section once more, in MACHINE integers (`leftAfter` = the stored element,\nread through the conversion the source applies to it) -/\n")
+		b.WriteString("def compositeSchedule_Left_decideW (schedsLeft leftAfter left : Int) (started : Bool) : C02LeftAct :=\n")
+		fmt.Fprintf(&b, "  let leftAfter : Int := wrapInt %d (wrapInt %d leftAfter)\n", convBits, fieldBits)
+	} else {
+		b.WriteString("def compositeSchedule_Left_decide (schedsLeft leftAfter left : Int) (started : Bool) : C02LeftAct :=\n")
+	}
 	b.WriteString(dec(fd.Body.List[i:], "  "))
 	b.WriteString("\n\n")
 	return b.String()
@@ -997,8 +1075,11 @@ func c02srcExtra(t *tr) string {
 	b.WriteString("-- ---------------------------------------------------------------- unlimitedSchedule\n\n")
 	b.WriteString(x.unlimited())
 	b.WriteString("-- ---------------------------------------------------------------- NewComposite\n\n")
-	b.WriteString(x.newCompositeLoop())
+	b.WriteString(x.newCompositeLoop(false))
 	b.WriteString("-- ---------------------------------------------------------------- compositeSchedule.Left\n\n")
-	b.WriteString(x.leftDecision())
+	b.WriteString(x.leftDecision(false))
+	b.WriteString("-- ---------------------------------------------------------------- the same in machine integers\n\n")
+	b.WriteString(x.newCompositeLoop(true))
+	b.WriteString(x.leftDecision(true))
 	return b.String()
 }
